@@ -12,6 +12,9 @@ use sylvia::cw_std::{
 pub use serde_json;
 pub use verif_rt as rt;
 
+pub mod reply;
+pub use reply::{reply_main_with, ReplyVt};
+
 // ------------------------------------------------------------------------------------------------
 // Types shared by all generated programs
 
@@ -51,6 +54,7 @@ pub type Deps = OwnedDeps<MockStorage, MockApi, MockQuerier>;
 
 pub mod rec {
     use super::*;
+    pub use crate::reply::{build_with, ctx_reply, inst_data, reply_handler, result_text, Recv};
     use sylvia::ctx::{ExecCtx, InstantiateCtx, MigrateCtx, QueryCtx, SudoCtx};
     use sylvia::cw_std::{QuerierWrapper, Storage};
 
@@ -249,7 +253,7 @@ pub fn make_ctx(seq: usize) -> (Deps, Env, MessageInfo, Value) {
     (deps, env, info, envj)
 }
 
-fn mark(deps: &Deps) -> String {
+pub(crate) fn mark(deps: &Deps) -> String {
     use sylvia::cw_std::Storage;
     deps.storage.get(b"verif_mark").map(|b| String::from_utf8_lossy(&b).to_string()).unwrap_or_default()
 }
